@@ -166,9 +166,19 @@ def handle : List Sexp → Option Sexp
              | some xs2 => decide (serRun SerSt.init (flatten p xs2) = some out)
              | none => false)
         | none => false
+      -- the same through the real parser chain (`parseSource`): ser_idempotent_builder_source /
+      -- ser_idempotent_parsed_text_source, side condition `noStartEndX`
+      let inSrc := (inBT && noStartEndX (mergeX xs)) || (inPT && noStartEndX xs)
+      let srcHolds := match serRun SerSt.init (flatten p xs) with
+        | some out =>
+            (match parseSource (encodeText ascii out) with
+             | some xs2 => decide (serRun SerSt.init (flatten p xs2) = some out)
+             | none => false)
+        | none => false
       pure (.list [ofBool inDom, ofBool holds, ofBool inText, ofBool textHolds, ofBool inAscii, ofBool asciiHolds,
                    ofBool inIdem, ofBool idemHolds, ofBool inInput, ofBool inputHolds,
-                   ofBool inB, ofBool bHolds, ofBool inBT, ofBool inPT, ofBool textIdemHolds])
+                   ofBool inB, ofBool bHolds, ofBool inBT, ofBool inPT, ofBool textIdemHolds,
+                   ofBool inSrc, ofBool srcHolds])
   | [.atom "reparse", .str t] =>
       -- what XMLParser + EmptyTagFilter deliver for this text, according to the specification side
       -- `parseSource` = `parseText` + `<a></a>` read as `<a/>`; `agree`: the two give the same answer on this
